@@ -850,7 +850,13 @@ def runSingle : P String := do
       let problems : List String :=
         (if msg ≠ [0xC3, 0x01] ++ Spec.fingerprintLE pcfA.toUTF8.data.toList ++ datumBytes
           then ["the message is not C3 01 ++ CRC-64-AVRO(canonical form) ++ datum"] else [])
-        ++ (if !a1.startsWith "ok" then ["the message does not read back under its schema"] else [])
+        ++ (if !a1.startsWith "ok" &&
+              -- (the same domain as C01: a datum holding a decimal outside the documented limits
+              -- - `Spec.observe` undefined - need not read back)
+              (match Spec.decode S (4 * datumBytes.length + 4 * S.size + 64) root datumBytes with
+                | some (v, []) => (Spec.observe S root v).isSome
+                | _ => true)
+            then ["the message does not read back under its schema"] else [])
         ++ (if unborrowStr a1 ≠ unborrowStr b1 then ["slice and reader disagree on a single-object message"] else [])
         ++ (if pcfA ≠ pcfB ∧ a2.startsWith "ok" ∧ fp ≠ fpO then ["decoded under a schema with another fingerprint"] else [])
         ++ (if pcfA ≠ pcfB ∧ fp = fpO then ["n/a CRC collision between distinct canonical forms"] else [])
